@@ -80,8 +80,18 @@ def per_path(func, callee):
     return arg, kw
 
 
-def ext_codes_default(func):
-    """{type name: code} from `if isinstance(obj, T): ... return msgpack.ExtType(<code>, ...)` in default()"""
+# the encodings for which "ext_hook inverts default" is the assumption validated by correspondence; a different codec
+# is a different assumption, so it makes the generated flag false and the obligation C01_source_hooks_complete fail
+KNOWN_ENCODERS = {"complex": "struct.pack('dd', obj.real, obj.imag)", "long": "str(obj).encode('ascii')",
+                  "datetime": "struct.pack('d', obj.timestamp())", "date": "struct.pack('l', obj.toordinal())"}
+KNOWN_DECODERS = {"complex": "real, imag = struct.unpack('dd', data); return complex(real, imag)", "long": "return int(data)",
+                  "datetime": "return datetime.datetime.fromtimestamp(struct.unpack('d', data)[0])",
+                  "date": "return datetime.date.fromordinal(struct.unpack('l', data)[0])"}
+
+
+def ext_codes_default(func, shapes):
+    """{type name: code} from `if isinstance(obj, T): ... return msgpack.ExtType(<code>, <data>)` in default();
+    shapes[type name] = source text of <data>"""
     out = {}
     for st in func.body:
         if not isinstance(st, ast.If):
@@ -96,11 +106,12 @@ def ext_codes_default(func):
                      "default(): ExtType code is not an integer literal")
                 need(tname not in out, "default(): two ExtType encodings for " + tname)
                 out[tname] = sub.args[0].value
+                shapes[tname] = ast.unparse(sub.args[1])
     return out
 
 
-def ext_codes_hook(func):
-    """{code: constructor text} from `if code == <int>: ... return <ctor>(...)` in ext_hook()"""
+def ext_codes_hook(func, shapes):
+    """{code: constructor text}; shapes[code] = source text of the branch body; from `if code == <int>: ... return <ctor>(...)` in ext_hook()"""
     out = {}
     for st in func.body:
         if isinstance(st, ast.If):
@@ -111,6 +122,7 @@ def ext_codes_hook(func):
             rets = [s for s in ast.walk(st) if isinstance(s, ast.Return)]
             need(len(rets) == 1 and isinstance(rets[0].value, ast.Call), "ext_hook(): branch does not return a constructor call")
             out[t.comparators[0].value] = ast.unparse(rets[0].value.func)
+            shapes[t.comparators[0].value] = "; ".join(ast.unparse(b) for b in st.body)
         else:
             need(isinstance(st, (ast.Raise, ast.Expr)), "ext_hook(): unrecognised statement")
     return out
@@ -138,8 +150,9 @@ def gen_serializers(tree):
                                        ("result", kd, kl, conv_res, rec_res)):
             table[(sname, p)] = (bool(enc.get("default")), conv, bool(dec.get("object_hook")), bool(dec.get("ext_hook")), rec)
     mp = find_class(mod, "MsgpackSerializer")
-    dcodes = ext_codes_default(find_func(mod, "default", "MsgpackSerializer"))
-    hcodes = ext_codes_hook(find_func(mod, "ext_hook", "MsgpackSerializer"))
+    dshapes, hshapes = {}, {}
+    dcodes = ext_codes_default(find_func(mod, "default", "MsgpackSerializer"), dshapes)
+    hcodes = ext_codes_hook(find_func(mod, "ext_hook", "MsgpackSerializer"), hshapes)
     want_d = {"complex": "complex", "numbers.Number": "long", "datetime.datetime": "datetime", "datetime.date": "date"}
     want_h = {"complex": "complex", "int": "long", "datetime.datetime.fromtimestamp": "datetime", "datetime.date.fromordinal": "date"}
     need(set(dcodes) == set(want_d), "default(): ExtType encodings are for %s, expected %s" % (sorted(dcodes), sorted(want_d)))
@@ -158,6 +171,18 @@ def gen_serializers(tree):
     out += "(* ... and the codes ext_hook() decodes with the matching constructor *)\n"
     for code, ctor in sorted(hcodes.items()):
         out += "Definition hook_%s : N := %s.\n" % (want_h[ctor], cN(code))
-    return out, {"table": {"%s/%s" % k: v for k, v in table.items()}, "ids": ids,
+    out += "(* the byte codec of every ExtType payload, as source text, and whether it is the codec the model's assumption\n"
+    out += "   `ext_hook inverts default` was validated for *)\n"
+    enc = {want_d[k]: v for k, v in dshapes.items()}
+    dec = {want_h[hcodes[c]]: v for c, v in hshapes.items()}
+    flags = []
+    for short in ("complex", "long", "datetime", "date"):
+        ok = enc.get(short) == KNOWN_ENCODERS[short] and dec.get(short) == KNOWN_DECODERS[short]
+        clean = lambda t: str(t).replace("(*", "( *").replace("*)", "* )").replace("\n", " ")
+        out += "(* %s: default() sends %s ; ext_hook() does %s *)\n" % (short, clean(enc.get(short)), clean(dec.get(short)))
+        out += "Definition codec_%s_known : bool := %s.\n" % (short, cbool(ok))
+        flags.append("codec_%s_known" % short)
+    out += "Definition ext_codecs_known : bool := %s.\n" % " && ".join(flags)
+    return out, {"codecs": {"encode": enc, "decode": dec}, "table": {"%s/%s" % k: v for k, v in table.items()}, "ids": ids,
                  "ext_default": {want_d[k]: v for k, v in dcodes.items()},
                  "ext_hook": {want_h[v]: k for k, v in hcodes.items()}, "ast_sha": shas}
